@@ -506,6 +506,28 @@ def _(nq):
     M.forward = forward
 
 
+@mutant('m11_own_sampler_never_last_outcome', 'C11', True, "the library's own sampler (integer seed) never returns the last outcome with non-zero probability")
+def _(nq):
+    st = nq.sim.state
+    orig = st.measure_quantum_vector
+
+    def measure_quantum_vector(q0, index, seed=None):
+        if isinstance(seed, np.random.Generator):
+            return orig(q0, index, seed)
+
+        class G(np.random.Generator):
+            def choice(self, a, size=None, replace=True, p=None, axis=0, shuffle=True):
+                p = np.asarray(p)
+                nz = np.nonzero(p > 1e-12)[0]
+                if len(nz) > 1:
+                    p = p.copy()
+                    p[nz[-1]] = 0
+                    p = p / p.sum()
+                return super().choice(a, size=size, replace=replace, p=p, axis=axis, shuffle=shuffle)
+        return orig(q0, index, G(np.random.PCG64(seed)))
+    st.measure_quantum_vector = measure_quantum_vector
+
+
 @mutant('n11_no_grouping_cache', 'C11', False, 'negative control: grouping recomputed without cache')
 def _(nq):
     st = nq.sim.state
